@@ -522,7 +522,7 @@ func c05Oracle(line, out string) string {
 			return ""
 		}
 		_, inDom := valDomain[t][valTokKind(f[4])]
-		v, okv := valParse(f[4])
+		v, okv := valParsePure(f[4])
 		if !inDom || !okv || !valLenOK(t, l, v) || !valValueInDomain(t, l, v) {
 			return ""
 		}
